@@ -63,13 +63,22 @@ def main(argv=None):
                 print(f"VIOLATION property={prop} replay={a.replay}")
                 return 1
             return 0
+        selftest_problem = None
         if a.tier == "thorough":
             from . import selftest
 
-            if not a.no_selftest:
-                rep.extra["selftest"] = selftest.run_for(prop)
-            rep.extra["analyser_crosscheck"] = selftest.crosscheck_schema()
+            try:
+                if not a.no_selftest:
+                    rep.extra["selftest"] = selftest.run_for(prop)
+                rep.extra["analyser_crosscheck"] = selftest.crosscheck_schema()
+            except AnalysisError as e:
+                # a self-test problem never hides a property verdict: report the violations first
+                selftest_problem = str(e)
+                rep.extra["selftest_problem"] = selftest_problem
         code = R.finish(rep, mod.EXPLANATION, getattr(mod, "ASSUMPTIONS", []), TRUSTED + getattr(mod, "TRUSTED", []))
+        if selftest_problem and code == 0:
+            print(f"ANALYSIS-ERROR property={prop} {selftest_problem}")
+            return 2
         n = len(rep.obligations)
         print(f"{prop} [{a.tier}] obligations={n} discharged={n - len(rep.violations)} units={rep.units} exit={code}")
         return code
